@@ -178,13 +178,17 @@ EXTRA_TEXT = {
     'C02': ' Document level (C02Tree, C02Tok): C02_tree - for every cell parser and every text without surplus cells a successful import has exactly the skeleton of an '
            'independent spine-path tracker (one stage per non-empty line, one node per cell, parent = the cell above on the same spine path, header = the ** cell of its spine); '
            'C02_import_succeeds (such texts without *x always import); C02_tokens (every node carries the token its own spine\'s importer makes of its own cell). The harness '
-           'compares the real tree with the Lean tracker run on the text.',
+           'compares the real tree with the Lean tracker run on the text. C02Surplus: C02_surplus_text (a line with a cell beyond the live spine paths makes the import of the whole text raise).',
     'C03': ' Chords and every cell of the grammar: C03_chord, C03_cell. Document level (C03Doc): C03_export_of_text - dumps(loads(text)) is the grid of the text with each cell '
            'replaced by the kern text of the token its own spine\'s importer made of it, unsupported spine types, global comments and all-null lines removed - a function of the '
            'text through the tracker alone; the real export is compared with this Lean specification on every explored document.',
     'C05': ' Document level: C13D.C13_export_of_text / C05_selection_keeps_grid (a category selection changes the text of cells, never which cells there are).',
     'C06': ' Document level: C13D.C06_cell_projection, C06D.C06_spine_types_of_text (the spine-type query as a function of the text).',
-    'C07': ' Document level (C07Doc): C07_measure_index - for every parser and text the measure index is the list of stages holding a barline token (first: a CORE token).',
+    'C07': ' Document level (C07Doc, C07Text): C07_measure_index - for every parser and text the measure index is the list of stages holding a barline token (first: a CORE token); '
+           'C07_range_of_text - the body of every valid range export is the text specification of the rows over the stage interval the measure index assigns to a..b.',
+    'C08': ' C08Prefix: C08_excerpt_from_start - an excerpt that starts at the beginning of the score is the full export cut after its end stage plus the synthetic terminator.',
+    'C15': ' Document level (C15Doc): C15_same_skeleton, C15_export - the transposed document has the skeleton of the source and its default export is the text specification over the source '
+           'skeleton and the transposed tokens.',
     'C10': ' Document level (C10Doc, C10Text): C10_sigs_recurrence (every node\'s signature table is its parent\'s, updated with itself when it is a signature), C10_clef_in_force, '
            'clef_is_nearest (the clef the exporter uses = the nearest clef token at or above the cell on its spine path) and C10_export_of_text: every export without a measure range in '
            'ALL SIX encodings is a function of the text (tracker skeleton + tokens + clef in force); compared with the real export on every explored option set.',
